@@ -23,7 +23,7 @@ def make_slot(k):
     if r.returncode != 0:
         raise SystemExit("worktree: " + r.stdout)
     # copy /verif with its build output so that nothing has to be rebuilt from scratch
-    sh("rsync -a --exclude .git --exclude replays --exclude '.cache/repo-*' --exclude '.cache/tmp' %s/ %s/verif/" % (ROOT, base))
+    sh("rsync -a --exclude .git --exclude replays --exclude '.cache/repo-*' --exclude '.cache/tmp' --exclude '.cache/gocache' %s/ %s/verif/" % (ROOT, base))
     return base
 
 def drop_slot(base):
@@ -42,7 +42,7 @@ def run_seed(base, name, props, tier):
     try:
         for p in props:
             t0 = time.time()
-            r = sh("./check %s --tier %s" % (p, tier), cwd=base + "/verif", env=dict(os.environ, VERIF_REPO=repo, GOPROXY="off"))
+            r = sh("./check %s --tier %s" % (p, tier), cwd=base + "/verif", env=dict(os.environ, VERIF_REPO=repo, GOPROXY="off", VERIF_GOCACHE=os.path.join(ROOT, ".cache", "gocache")))
             lines = [l for l in r.stdout.splitlines() if l.startswith(("VIOLATION", "BUILD-ERROR", "KNOWN-FINDING"))]
             detail = [l.strip()[:300] for l in r.stdout.splitlines() if l.startswith("  ")][:3]
             res["checks"][p] = {"exit": r.returncode, "lines": [l[:300] for l in lines][:6], "detail": detail,
